@@ -483,6 +483,46 @@ func runC17(r *Run) {
 	} else {
 		r.Bad("R4", "anchor/feemarket.InitGenesis", "", "not found")
 	}
+	// … and the export hands that figure on: the persisted one (the transient counter is empty outside a block)
+	if eg, ok := P.FnOK("x/feemarket.ExportGenesis"); ok {
+		sl := backSlice()
+		eachInstr(eg, func(in ssa.Instruction) {
+			if ret, ok := in.(*ssa.Return); ok {
+				sl = backSlice(ret.Results...)
+			}
+		})
+		persisted := sl.HasCall(func(ci CallInfo) bool { return ci.Name == "GetBlockGasWanted" })
+		transient := sl.HasCall(func(ci CallInfo) bool { return ci.Name == "GetTransientGasWanted" })
+		r.Check(persisted && !transient, "R4", fnID(eg)+"#exports-persisted-block-gas", P.Pos(fnPos(eg)), "exported BlockGas = GetBlockGasWanted()",
+			"feemarket ExportGenesis does not export the persisted gas figure of the last block (it reads the transient counter, which is empty outside a block, or nothing): the first block after an export/import restart computes its base fee from 0")
+	} else {
+		r.Bad("R4", "anchor/feemarket.ExportGenesis", "", "not found")
+	}
+	// R8: the block's declared-gas counter is a plain running sum
+	r.Rule("R8", "SHAPE.declared-gas-is-a-plain-sum: AddTransientGasWanted stores GetTransientGasWanted() + gasWanted itself — the declared gas of a block's transactions may legitimately exceed the block gas limit (the limit bounds gas used), so a counter that saturates at the limit caps the figure at the target and the base fee never rises")
+	if ag, ok := P.FnOK("(x/feemarket/keeper.Keeper).AddTransientGasWanted"); ok {
+		okSum := false
+		eachCall(ag, func(ci CallInfo) {
+			if ci.Name != "SetTransientBlockGasWanted" {
+				return
+			}
+			a := ci.Instr.Common().Args
+			b, isB := stripValue(a[len(a)-1]).(*ssa.BinOp)
+			if !isB || b.Op != token.ADD {
+				return
+			}
+			isCur := func(v ssa.Value) bool {
+				c, ok := stripValue(v).(*ssa.Call)
+				return ok && callInfo(c).Name == "GetTransientGasWanted"
+			}
+			isParam := func(v ssa.Value) bool { p, ok := stripValue(v).(*ssa.Parameter); return ok && p.Name() == "gasWanted" }
+			okSum = isCur(b.X) && isParam(b.Y) || isCur(b.Y) && isParam(b.X)
+		})
+		r.Check(okSum, "R8", fnID(ag)+"#plain-sum", P.Pos(fnPos(ag)), "stores current + gasWanted",
+			"the value stored as the block's declared gas is not the plain sum of the previous value and the transaction's gas (clamped, saturated or otherwise adjusted): the figure max(gasWanted × multiplier, gasUsed) no longer grows with the gas the block's transactions declared")
+	} else {
+		r.Bad("R8", "anchor/AddTransientGasWanted", "", "not found")
+	}
 }
 
 // resolveLocal: a load of a local variable that is assigned exactly once (e.g. because a deferred
